@@ -35,6 +35,16 @@ CHECKS = {
                 note="Trusted: pbt/geomkit.py exact integer predicates. Errors below the 2-unit band are invisible (the "
                      "statement excludes the rounding grid). Scaled coordinates stay below 2^50.",
                 technique="property-based testing (Hypothesis) with an exact point-membership oracle and metamorphic area identities"),
+    "C06": dict(level="exploration", design="4 C06",
+                text="Generated hierarchies (all element and repetition kinds, transformed references, deep chains) followed by a "
+                     "generated history of hierarchy queries (apply_repetitions x include_paths x depth x filter), flatten and "
+                     "deep copies; every result - with attached repetitions expanded by the model - is compared as a multiset "
+                     "with a hand flattening in Python (2x3 matrix products): polygons vertex by vertex, labels by placement "
+                     "matrix, flexpaths structurally, robust paths by evaluation, path outlines against paths re-constructed "
+                     "from pre-transformed arguments.",
+                note="Trusted: pbt/flatmodel.py. Positive magnifications only; sub-tolerance (degenerate) magnified paths are not "
+                     "generated; robust-path outlines are judged only where outline-then-transform is an identity.",
+                technique="model-based property testing (Hypothesis) of query/flatten histories against an affine-composition oracle"),
     "C11": dict(level="exploration", design="4 C11",
                 text="Generated repetitions of every kind (zero counts, negative/duplicate/zero vectors, explicit lists to "
                      "length 30) on every element kind are compared with my own enumeration: count, offsets, extrema, "
